@@ -133,8 +133,17 @@ fn skeleton() -> Document {
     put(90, r(91));
     put(91, r(90));
     put(92, Object::Integer(7));
+    // a chain of 200 bare references ending in a page-tree-like dictionary (entry at 300 + (200 - L)
+    // leaves L hops), and a cycle of 130 bare references
+    for k in 0..200u32 {
+        put(300 + k, r(301 + k));
+    }
+    put(500, d(vec![("Type", name("Pages")), ("Kids", arr(vec![r(4)])), ("Count", Object::Integer(1)), ("Title", lit("end of chain")), ("Dest", arr(vec![r(4), name("Fit")]))]));
+    for k in 0..130u32 {
+        put(600 + k, r(600 + (k + 1) % 130));
+    }
     doc.objects = o;
-    doc.max_id = 92;
+    doc.max_id = 729;
     doc.trailer.set("Root", r(1));
     doc.trailer.set("Encrypt", r(35));
     doc.trailer.set("ID", arr(vec![lit("id1"), lit("id2")]));
@@ -237,7 +246,7 @@ fn slot<'a>(o: &'a mut Object, path: &[String]) -> Option<&'a mut Object> {
     }
 }
 
-const N_FIXED_SHAPES: usize = 25;
+const N_FIXED_SHAPES: usize = 44;
 
 /// Shapes 0..17 are fixed values; shape 100+k is a reference to skeleton object k.
 fn shape(code: usize, site: &Site) -> Option<Object> {
@@ -267,6 +276,23 @@ fn shape(code: usize, site: &Site) -> Option<Object> {
         22 => Object::Name(vec![]),
         23 => Object::Real(-1e30),
         24 => arr(vec![arr(vec![]), d(vec![]), Object::Null, r(site.obj.max(1))]),
+        // long strings with a multi-byte character (or bytes that decode lossily to one) around byte 64,
+        // alone and inside the containers destinations and names live in
+        25..=33 => {
+            let s = long_string(code - 25);
+            Object::String(s, StringFormat::Literal)
+        }
+        34 => arr(vec![Object::String(long_string(1), StringFormat::Literal)]),
+        35 => d(vec![("D", Object::String(long_string(2), StringFormat::Literal)), ("S", name("GoTo"))]),
+        36 => Object::Name(long_string(1)),
+        // reference chains of exactly L hops to a dictionary, and a cycle of 130 references
+        37 => r(300 + 200 - 126),
+        38 => r(300 + 200 - 127),
+        39 => r(300 + 200 - 128),
+        40 => r(300 + 200 - 129),
+        41 => r(300 + 200 - 130),
+        42 => r(300),
+        43 => r(600),
         k if k >= 200 => {
             // whole-stream replacement: plain content from the operator/operand menu
             let menu = content_menu();
@@ -275,6 +301,33 @@ fn shape(code: usize, site: &Site) -> Option<Object> {
         k if k >= 100 => r((k - 100) as u32),
         _ => return None,
     })
+}
+
+/// 9 byte strings of 70..100 bytes: ASCII up to offset 61..65 then U+00E9 (2 bytes) / U+20AC (3 bytes) /
+/// U+1F600 (4 bytes), a run of 0xFF (each decodes lossily to a 3-byte U+FFFD), and pure ASCII (control).
+fn long_string(k: usize) -> Vec<u8> {
+    let ascii = |n: usize| -> Vec<u8> { (0..n).map(|i| b'a' + (i % 26) as u8).collect() };
+    let mut v;
+    match k {
+        0..=4 => {
+            v = ascii(61 + k);
+            v.extend_from_slice("\u{e9}".as_bytes());
+            v.extend(ascii(20));
+        }
+        5 => {
+            v = ascii(62);
+            v.extend_from_slice("\u{20ac}\u{20ac}".as_bytes());
+            v.extend(ascii(20));
+        }
+        6 => {
+            v = ascii(61);
+            v.extend_from_slice("\u{1f600}".as_bytes());
+            v.extend(ascii(20));
+        }
+        7 => v = vec![0xff; 80],
+        _ => v = ascii(100),
+    }
+    v
 }
 
 /// Content streams in which every text / graphics operator the queries interpret appears with
@@ -601,6 +654,13 @@ fn shape_label(code: usize) -> String {
         22 => "name-empty".into(),
         23 => "real-huge-negative".into(),
         24 => "[[] <<>> null self]".into(),
+        25..=33 => format!("long-string-{}", code - 25),
+        34 => "[long-string]".into(),
+        35 => "<</D long-string /S /GoTo>>".into(),
+        36 => "long-name".into(),
+        37..=41 => format!("ref-chain-of-{}-hops", 126 + code - 37),
+        42 => "ref-chain-of-200-hops".into(),
+        43 => "ref-into-130-cycle".into(),
         k if k >= 200 => format!("stream-content:{}", String::from_utf8_lossy(&content_menu()[(k - 200) % content_menu().len()])),
         k => format!("ref-to-obj{}", k - 100),
     }
@@ -666,10 +726,12 @@ fn main() {
         run.finish_replay(bad);
     }
     // self-check: every query runs cleanly on the unmutated skeleton, and returns content
+    // (the skeleton is itself one of the "arbitrary object graphs" - it carries unreferenced reference chains and
+    // cycles - so a query that panics on it is a verdict, case = no deviation)
     for q in 0..QUERIES.len() {
+        run.eval(1);
         if let Err(p) = util::guard(|| run_query(&skel, q)) {
-            eprintln!("MACHINERY: query {} panics on the skeleton: {}", QUERIES[q], p);
-            std::process::exit(3);
+            run.fail(None, json!({"m": [], "q": q, "query": QUERIES[q], "site": "none (unmutated skeleton)"}), &format!("Panic: {} (query {})", p, QUERIES[q]), "every query returns a value or an error");
         }
     }
     if skel.get_pages().len() != 3 || skel.get_toc().map(|t| t.toc.len()).unwrap_or(0) < 2 || skel.extract_text(&[1]).is_err() {
@@ -678,7 +740,7 @@ fn main() {
     }
     run.rule(
         "well-formed skeleton document containing everything the queries read; a site is every dictionary entry / array element / whole object \
-         of the skeleton (superset of the keys the query code reads); 1 deviation: every site x 25 value shapes (also inserted under each of 22 query-relevant keys a dictionary lacks) (nine kinds, extremes, arrays, \
+         of the skeleton (superset of the keys the query code reads); 1 deviation: every site x 44 value shapes (incl. long strings with a multi-byte character around byte 64, reference chains of 126..130 and 200 hops, a 130-cycle) (also inserted under each of 22 query-relevant keys a dictionary lacks) (nine kinds, extremes, arrays, \
          dangling / cyclic / wrong-kind references, entry removed) plus every site x a reference to every object of the skeleton (all link cycles); \
          2 deviations (thorough): all pairs over the sites named by a key the query code reads; every case runs all 22 query groups in an isolated \
          worker; non-trivial = the mutation changes the skeleton (site exists); cases distinct by construction",
@@ -707,7 +769,7 @@ fn main() {
     run.set("keys_read_by_query_code_but_absent_from_skeleton_NOTE", json!(missing));
     run.set("sites", json!(sites.len()));
     // cases
-    let obj_ids: Vec<u32> = skel.objects.keys().map(|k| k.0).collect();
+    let obj_ids: Vec<u32> = skel.objects.keys().map(|k| k.0).filter(|n| *n < 300).collect();
     let mut cases: Vec<(Vec<(usize, usize)>, Case)> = vec![];
     let mut id = 0u64;
     let mut mk = |m: Vec<(usize, usize)>, cases: &mut Vec<(Vec<(usize, usize)>, Case)>| {
